@@ -36,6 +36,9 @@ inductive Prim where
   | stop | subFn | subDet | destroy
   | wait (f : Nat)   -- block (user-level, e.g. on another job's future) until event `f` has been signalled
   | set (f : Nat)    -- signal event `f`
+  | curStopped       -- `thread_pool::current::is_stopped()`
+  | curEnq           -- `thread_pool::current::any_enqueued()`
+  | resub            -- `co_await thread_pool::current()`: the rest of the body is handed to the pool of this worker thread
   | stopB | destroyB -- `stop()` / delete of the *other* pool instance B (see `Cfg.hasB`)
   | react            -- not an action of the body: when the job is *cancelled*, whoever observes it (the coroutine's handler,
                      -- the closure's destructor, the future's watcher) calls back into the pool (`is_stopped()`)
@@ -50,6 +53,9 @@ inductive Act where
   | nop
   | stopB
   | destroyB
+  | curStopped
+  | curEnq
+  | resub
   deriving DecidableEq, Repr, Inhabited
 
 def Prim.toAct : Prim → Act
@@ -62,6 +68,9 @@ def Prim.toAct : Prim → Act
   | Prim.react => Act.nop
   | Prim.stopB => Act.stopB
   | Prim.destroyB => Act.destroyB
+  | Prim.curStopped => Act.curStopped
+  | Prim.curEnq => Act.curEnq
+  | Prim.resub => Act.resub
 
 structure Cfg where
   nw : Nat                       -- worker threads 0..nw-1
@@ -72,6 +81,7 @@ structure Cfg where
   hasB : Bool := false           -- there is a second pool instance B with one worker (thread `nw`; clients start at `nw+1`).
                                  -- Nothing is ever submitted to B; it is only stopped / destroyed, from clients and from A's jobs:
                                  -- `_current` is ONE thread-local shared by all instances
+  curNullOk : Bool := true       -- `current_awaiter` does not form a reference from a null `_current` (repaired code)
   cvYield : Bool := false        -- the harness puts a scheduling point at the entry of `_cond.wait` (predicate evaluated,
                                  -- mutex still held, waiter not yet registered); in the model it is a step of its own anyway
 
@@ -123,11 +133,18 @@ inductive Ret where
   | dtorB      -- the same on the `return` path of the pinned code
   deriving DecidableEq, Repr, Inhabited
 
+/-- the three uses of the thread-local "pool of this worker thread" -/
+inductive Peek where
+  | stopped | enq | resub
+  deriving DecidableEq, Repr, Inhabited
+
 inductive Pc where
   | idle                          -- run the next action of the current activity
   | enqCS (j : Nat)               -- the closure of `j` exists, about to lock `_mx` in `enqueue`
   | afterEnq (j : Nat) (acc : Bool)   -- `enqueue` returned (its critical section is over)
   | stopCS (isD : Bool)           -- `stop()` entered, about to lock `_mx`
+  | peekCS (k : Peek)             -- `_current` is this pool: about to lock `_mx` in `is_stopped()` / `any_enqueued()`
+  | peekDone (k : Peek) (r : Bool)    -- that critical section is over, `r` was read
   | waitFlag (f : Nat)            -- blocked in a user-level wait for event `f`
   | stopJoin                      -- `stop()`: walk the local copy of the thread list
   | joinBlocked                   -- `stop()`: blocked in `join()`
@@ -158,6 +175,7 @@ inductive Ev where
   | cancel (j t : Nat)
   | value (j t : Nat)
   | flagBlock (t f : Nat) | flagSet (f t : Nat)
+  | curStopped (t : Nat) (r : Bool) | curEnq (t : Nat) (r : Bool) | curInline (t : Nat) | crash (t : Nat)
   | unlockB (t : Nat) | cvBlockB (t : Nat)
   | stopBBegin (t : Nat) | stopBEnd (t : Nat) | destroyBBegin (t : Nat) | destroyedB (t : Nat) | destroyBSkip (t : Nat)
   | stopBegin (t : Nat) | stopEnd (t : Nat) | destroyBegin (t : Nat) | destroyed (t : Nat) | destroySkip (t : Nat)
@@ -196,6 +214,7 @@ structure State where
   nextJob : Nat := 0
   kind : Nat → Kind := fun _ => Kind.det
   body : Nat → List Prim := fun _ => []
+  acts : Nat → List Act := fun _ => []     -- what the unit of work does when it runs (its body, or the rest of a body that was re-submitted)
   killer : Nat → Bool := fun _ => false
   fut : Nat → Fut := fun _ => Fut.none
   armed : Nat → Bool := fun _ => false     -- the caller of run() has started watching the returned future
@@ -285,8 +304,9 @@ def arm (s : State) (t j : Nat) : State × List Ev :=
   | _ => ({ s with armed := upd s.armed j true }, [])
 
 /-- the job table entry of a new submission and the submitter's program counter -/
-def newJob (s : State) (t : Nat) (kd : Kind) (bd : List Prim) (kl : Bool) (rest : List Act) : State :=
+def newJob (s : State) (t : Nat) (kd : Kind) (bd : List Prim) (ac : List Act) (kl : Bool) (rest : List Act) : State :=
   { s with nextJob := s.nextJob + 1, kind := upd s.kind s.nextJob kd, body := upd s.body s.nextJob bd,
+           acts := upd s.acts s.nextJob ac,
            killer := upd s.killer s.nextJob kl, owner := upd s.owner s.nextJob t,
            fut := upd s.fut s.nextJob (if hasFut kd then Fut.pending else Fut.none),
            todo := upd s.todo t rest, pc := upd s.pc t (Pc.enqCS s.nextJob),
@@ -295,7 +315,7 @@ def newJob (s : State) (t : Nat) (kd : Kind) (bd : List Prim) (kl : Bool) (rest 
 /-- a submission, first part: the closure is built (a coroutine runs up to its `co_await`, a future is created ...) -/
 def stepSubmit (s : State) (t : Nat) (kd : Kind) (bd : List Prim) (kl : Bool) (rest : List Act) :
     State × List Ev × Outcome :=
-  (newJob s t kd bd kl rest, [Ev.submit s.nextJob kd t s.exit], Outcome.cont)
+  (newJob s t kd bd (bd.map Prim.toAct) kl rest, [Ev.submit s.nextJob kd t s.exit], Outcome.cont)
 
 /-- a submission, second part: the critical section of `enqueue` -/
 def stepEnqCS (s : State) (t k j : Nat) : State × List Ev × Outcome :=
@@ -332,7 +352,7 @@ def stepBodyEnd (s : State) (t : Nat) : State × List Ev × Outcome :=
       else ({ s with fut := upd s.fut j Fut.value, pc := upd s.pc t Pc.wFlush }, [], Outcome.cont)
     else (setPc s t Pc.wFlush, [], Outcome.cont)
 
-def stepIdle (s : State) (t : Nat) : State × List Ev × Outcome :=
+def stepIdle (c : Cfg) (s : State) (t : Nat) : State × List Ev × Outcome :=
   match s.todo t with
   | [] =>
     match s.ret t with
@@ -351,6 +371,16 @@ def stepIdle (s : State) (t : Nat) : State × List Ev × Outcome :=
   | Act.set f :: rest =>
       ({ s with todo := upd s.todo t rest, flag := upd s.flag f true }, [Ev.flagSet f t], Outcome.cont)
   | Act.nop :: rest => ({ s with todo := upd s.todo t rest }, [], Outcome.cont)
+  | Act.curStopped :: rest =>
+      if s.cur t then ({ s with todo := upd s.todo t rest, pc := upd s.pc t (Pc.peekCS Peek.stopped) }, [], Outcome.cont)
+      else ({ s with todo := upd s.todo t rest }, [Ev.curStopped t true], Outcome.cont)
+  | Act.curEnq :: rest =>
+      if s.cur t then ({ s with todo := upd s.todo t rest, pc := upd s.pc t (Pc.peekCS Peek.enq) }, [], Outcome.cont)
+      else ({ s with todo := upd s.todo t rest }, [Ev.curEnq t false], Outcome.cont)
+  | Act.resub :: rest =>
+      if s.cur t then ({ s with todo := upd s.todo t rest, pc := upd s.pc t (Pc.peekCS Peek.resub) }, [], Outcome.cont)
+      else if c.curNullOk then ({ s with todo := upd s.todo t rest }, [Ev.curInline t], Outcome.cont)
+      else (setPc s t Pc.stuck, [Ev.crash t], Outcome.blocked)   -- pinned code: reference bound to `*nullptr`
   | Act.stopB :: rest =>
       ({ s with todo := upd s.todo t rest, pc := upd s.pc t (Pc.bStopCS false) }, [Ev.stopBBegin t], Outcome.cont)
   | Act.destroyB :: rest =>
@@ -429,7 +459,7 @@ def stepWCvBlocked (s : State) (t : Nat) : State × List Ev × Outcome :=
 
 def stepWRun (s : State) (t j : Nat) : State × List Ev × Outcome :=
   ({ s with ran := upd s.ran j (s.ran j + 1), ranOn := upd s.ranOn j (some t), loc := upd s.loc j Loc.done,
-            job := upd s.job t (some j), todo := upd s.todo t ((s.body j).map Prim.toAct), ret := upd s.ret t Ret.body,
+            job := upd s.job t (some j), todo := upd s.todo t (s.acts j), ret := upd s.ret t Ret.body,
             pc := upd s.pc t Pc.idle },
    [Ev.run j t (s.cur t)], Outcome.cont)
 
@@ -464,6 +494,27 @@ def stepWAfterJob (c : Cfg) (s : State) (t : Nat) : State × List Ev × Outcome 
       ({ s with todo := upd s.todo t [Act.destroy], pc := upd s.pc t Pc.idle }, [], Outcome.cont)
     else stepFin s t
 
+/-- the critical section of `is_stopped()` / `any_enqueued()` called through `thread_pool::current` -/
+def stepPeekCS (s : State) (t : Nat) (k : Peek) : State × List Ev × Outcome :=
+  (setPc s t (Pc.peekDone k (match k with
+      | Peek.enq => s.exit || !s.q.isEmpty
+      | _ => s.exit)), [Ev.unlock t], Outcome.op)
+
+def jobBody (s : State) (t : Nat) : List Prim :=
+  match s.job t with
+  | some j => s.body j
+  | none => []
+
+/-- back from the critical section. `co_await current()`: not stopped, so `await_suspend` hands the coroutine — the rest of
+the running body — to the pool as a new unit of work of the `co_await pool` kind; this activity ends here -/
+def stepPeekDone (s : State) (t : Nat) (k : Peek) (r : Bool) : State × List Ev × Outcome :=
+  match k with
+  | Peek.stopped => (setPc s t Pc.idle, [Ev.curStopped t r], Outcome.cont)
+  | Peek.enq => (setPc s t Pc.idle, [Ev.curEnq t r], Outcome.cont)
+  | Peek.resub =>
+      if r then (setPc s t Pc.idle, [Ev.curInline t], Outcome.cont)
+      else (newJob s t Kind.co (jobBody s t) (s.todo t) false [], [Ev.submit s.nextJob Kind.co t s.exit], Outcome.cont)
+
 /-! Pool B: one worker, never a submission; only `stop()` / destruction. -/
 
 def stepBLoop (s : State) (t : Nat) : State × List Ev × Outcome :=
@@ -496,15 +547,17 @@ def stepBJoinBlocked (s : State) (t : Nat) : State × List Ev × Outcome :=
 
 /-- the next thing the thread does is `_mx.lock()` -/
 def Pc.wantsLock : Pc → Bool
-  | Pc.enqCS _ | Pc.stopCS _ | Pc.wRelock => true
+  | Pc.enqCS _ | Pc.stopCS _ | Pc.peekCS _ | Pc.wRelock => true
   | _ => false
 
 def stepPc (c : Cfg) (s : State) (t k : Nat) : State × List Ev × Outcome :=
   match s.pc t with
-  | Pc.idle => stepIdle s t
+  | Pc.idle => stepIdle c s t
   | Pc.enqCS j => stepEnqCS s t k j
   | Pc.afterEnq j acc => stepAfterEnq c s t j acc
   | Pc.stopCS isD => stepStopCS s t isD
+  | Pc.peekCS pk => stepPeekCS s t pk
+  | Pc.peekDone pk r => stepPeekDone s t pk r
   | Pc.waitFlag _ => (setPc s t Pc.idle, [], Outcome.cont)
   | Pc.stopJoin => stepStopJoin s t
   | Pc.joinBlocked => stepJoinBlocked s t
